@@ -49,6 +49,9 @@ def Instr.isJumpReturn : Instr → Bool
   | .jumpFnReturn _ => true
   | _ => false
 
+/-- function-return or jump-to-return instruction -/
+def Instr.isRet (i : Instr) : Bool := i.isFnReturn || i.isJumpReturn
+
 /-- value record introduced by a declaration instruction -/
 def Instr.declares : Instr → Option Value
   | .fnArg v _ | .letBinding v _ => some v
